@@ -355,7 +355,7 @@ def r19_8(ck: Check) -> None:
 
 def r19_5(ck: Check) -> None:
     q = "skepticoin.networking.disk_interface.DiskInterface.write_peers"
-    atomic_replace(ck, "R19.5", q, "PEERS_JSON_FILE", "the peer file is replaced atomically")
+    target = atomic_replace(ck, "R19.5", q, "PEERS_JSON_FILE", "the peer file is replaced atomically")
     s = ck.summ(q, 0)
     sp = Spec(s, ("self", "peer"))
     dumps = [e for e in s.events if e.kind == "call" and e.parts[0] == ("g", "ext:json.dump")]
@@ -375,18 +375,20 @@ def r19_5(ck: Check) -> None:
                 ins = [e for e in s.events if e.kind == "call" and e.parts and e.parts[0] == ("a", keep, "insert") and e.seq < dumps[0].seq]
                 if len(ins) == 1 and ins[0].term[2][0] == C(0) and not residual(ins[0], ()):
                     item = ins[0].term[2][1]                        # others.insert(0, new)
-            if item is not None and keep[0] == "comp" and len(keep[3]) == 1 and len(keep[3][0][1]) == 1:
-                filt = keep[3][0][1][0]
+            if item is not None and keep[0] == "comp" and len(keep[3]) == 1 and len(keep[3][0][1]) >= 1:
+                # further conditions (e.g. dropping malformed rows) only shorten the list: order and the entry for this peer are unaffected
+                filts = [g for f in keep[3][0][1] for g in (f[1] if f[0] == "and" else (f,))]
                 ident = ("list", (sp.term("peer.host"), sp.term("peer.port"), sp.term("peer.direction")))
-                if filt[0] == "cmp" and filt[1] == "!=" and ident in (filt[2], filt[3]) and item[0] == "list" and item[1][:3] == ident[1] \
-                        and keep[2] == ("e", keep[3][0][0], "elem"):
+                elem = ("e", keep[3][0][0], "elem")
+                same = [f for f in filts if f[0] == "cmp" and f[1] == "!=" and {f[2], f[3]} == {ident, ("sl", elem, None, C(3), None)}]
+                if same and item[0] == "list" and item[1][:3] == ident[1] and keep[2] == elem:
                     ok = True
     if ok:
         ck.ok("R19.5", construct, "", dumps[0].loc)
     else:
         ck.violated("R19.5", construct, "dumped: %s" % detail, s.fi.loc)
     final_path_writers(ck, "R19.5", "peers.json", {
-        q + ":os.remove": "removal of a file already found unreadable, before the replacement (listed exception)"}, replacer=q)
+        q + ":os.remove": "removal of a file already found unreadable, before the replacement (listed exception)"}, replacer=q, final_term=target)
 
 
 def check(ck: Check) -> None:
